@@ -963,11 +963,107 @@ class Builder:
                 # itself (its operands are unchanged in between): what the
                 # flag stands for is visible on the edges
                 return self._cond(d, frame)
+            hd = self._bool_helper_def(e, frame)
+            if hd is not None:
+                # `flag = self._predicate(...)` with the predicate inlined:
+                # branch on what it returned
+                return self._cond(hd[0], hd[1])
         self._expr(e, frame)
         if not self.dangling:
             return [], []
         n = self._emit('test', e, frame)
         return [(n, 'T')], [(n, 'F')]
+
+    def _bool_helper_def(self, e: ast.Name, frame):
+        """(test expression, callee frame) when the local flag was
+        assigned once from a call that was inlined, the callee has a single
+        `return <test over names / attributes / constants>`, and nothing
+        but plain attribute assignments of constants stands between the
+        assignment and this use (same block)"""
+        from .model import walk_own
+        fn = frame.ctx.func
+        if e.id in fn.params:
+            return None
+        stores = [x for x in walk_own(fn.node) if isinstance(x, ast.Name)
+                  and x.id == e.id and isinstance(x.ctx, (ast.Store,
+                                                            ast.Del))]
+        if len(stores) != 1:
+            return None
+
+        def find(stmts):
+            for i, st in enumerate(stmts):
+                if isinstance(st, ast.Assign) and len(st.targets) == 1 and \
+                        st.targets[0] is stores[0] and \
+                        isinstance(st.value, ast.Call):
+                    return stmts, i
+                for fld in ('body', 'orelse', 'finalbody'):
+                    sub = getattr(st, fld, None)
+                    if isinstance(sub, list) and sub and \
+                            isinstance(sub[0], ast.stmt):
+                        r = find(sub)
+                        if r:
+                            return r
+                for h in getattr(st, 'handlers', []) or []:
+                    r = find(h.body)
+                    if r:
+                        return r
+            return None
+        got = find(fn.node.body)
+        if not got:
+            return None
+        block, i = got
+        # the use: the If / While in the same block whose test is e
+        j = None
+        for k in range(i + 1, len(block)):
+            st = block[k]
+            if isinstance(st, (ast.If, ast.While)) and any(
+                    x is e for x in ast.walk(st.test)):
+                j = k
+                break
+            ok = isinstance(st, ast.Assign) and \
+                isinstance(st.value, ast.Constant) and all(
+                    isinstance(t, ast.Attribute) for t in st.targets)
+            if not ok:
+                return None
+        if j is None:
+            return None
+        call = block[i].value
+        kids = [c for c in getattr(frame, 'children', ())
+                if c.call is call]
+        if len(kids) != 1:
+            return None
+        callee = kids[0]
+        rets = [r for r in walk_own(callee.ctx.func.node)
+                if isinstance(r, ast.Return)]
+        if len(rets) != 1 or rets[0].value is None:
+            return None
+        v = rets[0].value
+
+        def pure(x):
+            if isinstance(x, (ast.Name, ast.Constant)):
+                return True
+            if isinstance(x, ast.Attribute):
+                return pure(x.value)
+            if isinstance(x, ast.Subscript):
+                return pure(x.value) and pure(x.slice)
+            if isinstance(x, ast.UnaryOp) and isinstance(x.op, ast.Not):
+                return pure(x.operand)
+            if isinstance(x, ast.BoolOp):
+                return all(pure(y) for y in x.values)
+            if isinstance(x, ast.Compare) and len(x.ops) == 1:
+                return pure(x.left) and pure(x.comparators[0])
+            return False
+        if not (isinstance(v, (ast.Compare, ast.BoolOp)) or (
+                isinstance(v, ast.UnaryOp) and isinstance(v.op, ast.Not))) \
+                or not pure(v):
+            return None
+        # the attributes the test reads are not the ones assigned between
+        reads = {x.attr for x in ast.walk(v) if isinstance(x, ast.Attribute)}
+        for st in block[i + 1:j]:
+            for t in st.targets:
+                if t.attr in reads:
+                    return None
+        return v, callee
 
     def _bool_def(self, e: ast.Name, frame):
         """the expression a local flag stands for: the flag is assigned
